@@ -170,6 +170,26 @@ func Predict(g *tg.Graph, name string, root *tg.Node, selfAdd, linked bool) (res
 	return cerr{class: "OK"}
 }
 
+// RecursionAsCoded: the verdict of checker.CheckRecursion alone as the unchanged tree codes it (run after
+// CompileAllOf): it follows every property that does not say `optional: true` — the option KeysAreOptionalByDefault
+// plays no part in it — and resolves names in the table of the object whose text holds them. known = false when the
+// mirror cannot compile allOf for the schema (then Check fails earlier and the question does not arise).
+func RecursionAsCoded(g *tg.Graph, name string, root *tg.Node, selfAdd, linked bool) (accepts, known bool) {
+	defer func() {
+		if r := recover(); r != nil {
+			if _, ok := r.(cerr); ok {
+				accepts, known = false, false
+				return
+			}
+			panic(r)
+		}
+	}()
+	m := &mirror{rs: buildSchema(g, name, root, selfAdd, linked), processing: map[string]bool{}, compiled: map[string]bool{},
+		found: map[string]bool{}, allowed: map[string]bool{}, visited: map[string]bool{name: true}}
+	m.compileAllOf()
+	return m.recursion(m.rs.root, m.rs.table), true
+}
+
 func (m *mirror) sortedNames() []string {
 	names := make([]string, 0, len(m.rs.table))
 	for n := range m.rs.table {
